@@ -23,6 +23,7 @@ def parseApi (ws : List String) : Option Api.Op :=
   | ["case", _] => some .case_
   | ["case"] => some .case_
   | ["nullses"] => some .nullses
+  | ["align", _] => some .align
   | ["new", s, c, r] => do some (.new (← n? s) (← n? c) (← n? r))
   | ["params", s, k, r, len, m, n1, seed] => do
       some (.params (← n? s) ⟨← n? k, ← n? r, ← n? len, ← n? m, (← n? n1) % 256, ← seed.toInt?⟩)
